@@ -40,7 +40,7 @@ func (*c12) Rule() string {
 func (k *c12) Setup(c *core.Ctx) (int, error) {
 	k.perCase = 50
 	k.cliEach = c.N(2, 6)
-	return c.N(60, 3000), nil
+	return c.N(160, 4000), nil
 }
 
 func (*c12) Finish(c *core.Ctx) {
